@@ -1,4 +1,4 @@
-import SignalGen.Generated
+import SignalGen.Gen.Scalar
 /-!
 # Regenerated tie, C17: `Frequency.Duration` / `Frequency.Events` as the Go source defines them now are the model's `duration` / `events`
 -/
